@@ -528,6 +528,10 @@ func checkC15(c *fw.Ctx) {
 				nd("the room ID matches the request", true, "InviteProtoEvent.RoomID == (gmsl/spec.RoomID).String("),
 				nd("a sender ID was obtained", true, "dyn(*&param:input.GetOrCreateSenderID)(", "#2 == nil)"),
 				nd("the invite event was built", true, ".Build(", "#1 == nil)"),
+				// what is built and signed on the remote server's word is an invite and nothing else
+				// (fix 0eca1c8: a power-levels event or a join came back signed as an accepted invite)
+				nd("the proposed event is a member event", true, "InviteProtoEvent.Type == \"m.room.member\")"),
+				{what: "the proposed membership is invite", alts: []lit{{[]string{"Membership", "== \"invite\")"}, true}}},
 			}
 			expandHelpersForNeeds(t, needs)
 			n := 0
